@@ -194,6 +194,35 @@ class PreambleIndentOptionProperty(OptionProperty):
     option_name = 'indent'
     data_type = int
 
+    def __set__(self, instance, value):
+        """Set the indentation level.
+
+        Args:
+            instance (pydiffx.dom.objects.BaseDiffXSection):
+                The section instance to set the option on.
+
+            value (int):
+                The number of spaces to indent by. This must be a
+                non-negative integer.
+
+        Raises:
+            pydiffx.errors.DiffXOptionValueError:
+                The value was not a non-negative integer.
+        """
+        # A boolean is technically an int, and a negative indentation can't
+        # be written in a way that can be read back.
+        if (isinstance(value, bool) or
+            (isinstance(value, int) and value < 0)):
+            raise DiffXOptionValueError(
+                'Expected "%(option_name)s" to be a non-negative integer, '
+                'got %(value)r instead'
+                % {
+                    'option_name': self.option_name,
+                    'value': value,
+                })
+
+        super(PreambleIndentOptionProperty, self).__set__(instance, value)
+
 
 class PreambleMimeTypeOptionProperty(OptionProperty):
     """A property for a preamble section's "mimetypes" option."""
